@@ -47,9 +47,9 @@ def _split_args(txt):
     """split a C++ argument list at top-level commas"""
     out, depth, cur = [], 0, ""
     for ch in txt:
-        if ch in "([{<":
+        if ch in "([{":
             depth += 1
-        elif ch in ")]}>":
+        elif ch in ")]}":
             depth -= 1
         if ch == "," and depth == 0:
             out.append(cur.strip())
@@ -74,17 +74,48 @@ def _call_args(text, start):
     raise AnchorError("unbalanced parentheses in a getNodeData call")
 
 
-def _enclosing_function(text, pos):
-    """best-effort name of the function whose body contains text[pos] (comment-free text)"""
-    best = None
-    for m in re.finditer(r"(?m)^[ \t]*((?:[A-Za-z_]\w*::)*~?[A-Za-z_]\w*)\s*\(", text[:pos]):
+_KEYWORDS = ("if", "while", "for", "switch", "return", "assert", "sizeof", "catch", "do", "else")
+_span_cache = {}
+
+
+def _function_spans(text):
+    """[(name, body start, body end)] of the function definitions of a comment-free C++ text"""
+    key = id(text)
+    if key in _span_cache and _span_cache[key][0] is text:
+        return _span_cache[key][1]
+    spans = []
+    for m in re.finditer(r"((?:[A-Za-z_]\w*::)*~?[A-Za-z_]\w*)\s*\(", text):
         name = m.group(1)
-        if name.split("::")[-1] in ("if", "while", "for", "switch", "return", "assert", "sizeof", "catch"):
+        if name.split("::")[-1] in _KEYWORDS:
             continue
-        if name.startswith("DOMServices::") and not text[:m.start()].rstrip().endswith(("void", "&", "*", "bool")):
-            continue       # a call, not a definition header
-        best = name
-    return best or "?"
+        try:
+            _, after = _call_args(text, m.end() - 1)
+        except AnchorError:
+            continue
+        mm = re.match(r"\s*(?:const\s*)?(?::[^{;]*)?\{", text[after:after + 400])
+        if not mm:
+            continue
+        start = after + mm.end() - 1
+        depth = 0
+        for k in range(start, len(text)):
+            if text[k] == "{":
+                depth += 1
+            elif text[k] == "}":
+                depth -= 1
+                if depth == 0:
+                    spans.append((name, start, k))
+                    break
+    _span_cache[key] = (text, spans)
+    return spans
+
+
+def _enclosing_function(text, pos):
+    """name of the innermost function definition whose body contains text[pos] (comment-free text)"""
+    best = None
+    for name, a, b in _function_spans(text):
+        if a < pos < b and (best is None or a > best[1]):
+            best = (name, a)
+    return best[0] if best else "?"
 
 
 def gen_strip():
